@@ -115,6 +115,7 @@ type Exec struct {
 	mapping seq.Mapping
 	hang    bool
 	params  []processor.SearchParams
+	counts  []string
 	asts    []*parser.ASTNode
 }
 
